@@ -89,12 +89,14 @@ class NonConformance(Exception):
 
 
 class RefScope(object):
-    __slots__ = ("bind", "alias", "reg", "default", "records")
+    __slots__ = ("bind", "alias", "reg", "default", "records", "primary")
 
     def __init__(self):
         self.bind = {"prov": U["P"], "xsd": U["X"], "xsi": "http://www.w3.org/2001/XMLSchema-instance"}
         self.alias = set()  # prefixes whose first binding was an alias of a registered uri
         self.reg = set()  # uris registered through the add-namespace path
+        # uri -> the prefix it is registered (and printed) under; None = minted, unknown
+        self.primary = {u: p_ for p_, u in self.bind.items()}
         self.default = None
         self.records = []
 
@@ -103,6 +105,7 @@ class RefScope(object):
         c.bind = dict(self.bind)
         c.alias = set(self.alias)
         c.reg = set(self.reg)
+        c.primary = dict(self.primary)
         c.default = self.default
         c.records = list(self.records)
         return c
@@ -139,28 +142,56 @@ class RefState(object):
         if cur is None:
             if uri in sc.reg:
                 sc.alias.add(prefix)
+            else:
+                sc.primary[uri] = prefix
             sc.bind[prefix] = uri
         elif cur is AMBIG or cur == uri:
-            pass
+            if uri not in sc.reg:
+                sc.primary.setdefault(uri, None)
         elif prefix in sc.alias:
             # an alias is not a registered prefix: the statement does not say whether a
             # later declaration re-points it
             sc.bind[prefix] = AMBIG
+            if uri not in sc.reg:
+                sc.primary[uri] = None
         elif uri not in sc.reg:
             self._mark_minted(s, prefix)
+            sc.primary[uri] = None  # registered under a minted prefix the model does not know
         sc.reg.add(uri)
+
+    def _unknown_prefix_bound(self, s):
+        """scope s has (re-)registered a namespace under a prefix the model cannot name:
+        every prefix that is still unbound there becomes undefined"""
+        sc = self.sc[s]
+        for p in ALL_PREFIXES:
+            if p not in sc.bind:
+                sc.bind[p] = AMBIG
 
     def resolve_prefix(self, s, prefix, use=True):
         s0 = s
         while s is not None:
-            cur = self.sc[s].bind.get(prefix)
+            sc = self.sc[s]
+            cur = sc.bind.get(prefix)
             if cur is AMBIG:
+                if use and s != s0:
+                    # the child may inherit (and thereby bind) whatever the ancestor means by it
+                    self.sc[s0].bind[prefix] = AMBIG
                 raise NotEnabled("prefix-ambiguous")
             if cur is not None:
                 if use and s != s0:
-                    # (c) forces it: the child hands out 'prefix:local' for this uri, so the
-                    # prefix must keep denoting it in the child from now on
-                    self.bind_prefix(s0, prefix, cur)
+                    if prefix in sc.alias:
+                        # the name is printed under the namespace's registered prefix, not the
+                        # alias: that prefix is what the child inherits; the alias itself stays
+                        # unbound in the child (it keeps following the ancestor)
+                        pfx = sc.primary.get(cur)
+                        if pfx is None:
+                            self._unknown_prefix_bound(s0)
+                        else:
+                            self.bind_prefix(s0, pfx, cur)
+                    else:
+                        # (c) forces it: the child hands out 'prefix:local' for this uri, so
+                        # the prefix must keep denoting it in the child from now on
+                        self.bind_prefix(s0, prefix, cur)
                 return cur
             s = self.parent(s)
         raise NotEnabled("prefix-undeclared")
@@ -207,18 +238,51 @@ class RefState(object):
         cands = [p for p, u in scp.bind.items() if u is not AMBIG and uri.startswith(u)]
         dflt = scp.default not in (None, AMBIG) and self.default_touched.get(par) and uri.startswith(scp.default) \
             and ":" not in uri[len(scp.default):]
+        if any(uri.startswith(u) and scp.primary.get(u) is None for u in scp.reg):
+            # the parent also holds a covering namespace under a prefix the model cannot name
+            # (minted after a clash): the child may inherit that one
+            self._unknown_prefix_bound(s0)
+            if dflt and sc0.default is None:
+                sc0.default = AMBIG
+            return bool(cands or dflt)
         if not cands and not dflt:
             return False
         # the implementation compacts with one of the parent's namespaces and thereby uses
         # (inherits) it in the child; the model does not say which one
-        if dflt and sc0.default is None:
-            sc0.default = scp.default
-        if len(cands) == 1 and not dflt:
-            self.bind_prefix(s0, cands[0], scp.bind[cands[0]])
+        if dflt and not cands:
+            if sc0.default is None:
+                sc0.default = scp.default
+            elif sc0.default is AMBIG:
+                if "dn" not in sc0.bind or "dn" in sc0.alias:
+                    sc0.bind["dn"] = AMBIG
+            elif sc0.default != scp.default:
+                # an inherited default-namespace name in a child with another default is
+                # re-homed under the 'dn' prefix (as for a QualifiedName argument)
+                self.bind_prefix(s0, "dn", scp.default)
+        elif len(cands) == 1 and not dflt:
+            p = cands[0]
+            if p in scp.alias:
+                pfx = scp.primary.get(scp.bind[p])
+                if pfx is None:
+                    self._unknown_prefix_bound(s0)
+                else:
+                    self.bind_prefix(s0, pfx, scp.bind[p])
+            else:
+                self.bind_prefix(s0, p, scp.bind[p])
         else:
+            # several candidates: which one is inherited is the implementation's choice
             for p in cands:
                 if p not in sc0.bind:
                     sc0.bind[p] = AMBIG
+                pfx = scp.primary.get(scp.bind[p])
+                if pfx is None:
+                    self._unknown_prefix_bound(s0)
+                elif pfx not in sc0.bind:
+                    sc0.bind[pfx] = AMBIG
+            if dflt and sc0.default is None:
+                sc0.default = AMBIG
+            elif dflt and ("dn" not in sc0.bind or "dn" in sc0.alias):
+                sc0.bind["dn"] = AMBIG
         return True
 
     def use_name(self, s, name):
@@ -560,7 +624,8 @@ def canon(st):
         ref = st.ref
         key.append(tuple(sorted(
             (s, tuple(sorted((p, "?" if u is AMBIG else u) for p, u in sc.bind.items())),
-             tuple(sorted(sc.alias)), tuple(sorted(sc.reg)), "?" if sc.default is AMBIG else sc.default)
+             tuple(sorted(sc.alias)), tuple(sorted(sc.reg)), "?" if sc.default is AMBIG else sc.default,
+             tuple(sorted((u, str(p_)) for u, p_ in sc.primary.items())))
             for s, sc in ref.sc.items())))
         key.append(tuple(sorted(ref.default_touched.items())))
         return repr(key)
